@@ -257,7 +257,7 @@ def seq_torder(names):
     """Symbolic stored times up to four inserted points (three when measurements are symbolic too);
     a fixed out-of-order layout beyond (path count)."""
     n = sum({"ins": 1, "ins_notime": 1, "ins_handle": 1, "insm": 2}.get(o, 0) for o in names)
-    heavy = any("handle" in o or o in ("upd_meas", "drop", "rm_filter_m") for o in names)
+    heavy = any("handle" in o or o in ("upd_meas", "drop", "rm_filter_m", "upd_time_cb") for o in names)
     return "sym" if n <= (3 if heavy else 4) else "ooo"
 
 
